@@ -47,6 +47,7 @@ var subforms = []subform{
 type position struct {
 	name  string
 	kind  string
+	class string // clause class: positions served by the same code share one
 	text  string
 	uses  []Use
 	admin bool
@@ -56,7 +57,12 @@ var positions []position
 
 func init() {
 	p := func(name, kind, text string, admin bool, u ...[]Use) {
-		positions = append(positions, position{name: name, kind: kind, text: text, admin: admin, uses: cat(u...)})
+		class := name
+		if strings.HasPrefix(name, "update.set") {
+			class = "update.set"
+		}
+
+		positions = append(positions, position{name: name, kind: kind, class: class, text: text, admin: admin, uses: cat(u...)})
 	}
 
 	t1 := rd("select.from", "t1")
@@ -147,7 +153,7 @@ func posFamily(lv Level) []Stmt {
 					Family: "pos",
 					Cell:   "pos:" + p.name + ":" + f.name,
 					Key:    key,
-					Uses:   cat(p.uses, rd(p.name, reads)),
+					Uses:   cat(p.uses, rd(p.class, reads)),
 					Admin:  p.admin,
 				}
 
@@ -159,6 +165,8 @@ func posFamily(lv Level) []Stmt {
 					s.Simpler = append(s.Simpler, "pos:select.where:"+f.name+":"+t)
 				}
 
+				s.Ordered = p.name == "select.orderby"
+
 				out = append(out, s)
 
 				if lv.PosNesting && p.kind == "select" && !strings.HasPrefix(p.text, "WITH") {
@@ -167,7 +175,8 @@ func posFamily(lv Level) []Stmt {
 					n.Key = "posnested:" + p.name + ":" + f.name + ":" + t
 					n.Cell = "posnested:" + p.name + ":" + f.name
 					n.Simpler = []string{key}
-					n.Uses = cat(rd("select.from", "t1"), rd("nested."+p.name, usedTables(s.Uses)))
+					n.Ordered = false
+					n.Uses = cat(rd("select.from", "t1"), rd("nested."+p.class, usedTables(s.Uses)))
 					out = append(out, n)
 				}
 			}
@@ -295,8 +304,8 @@ func lexFamily() []Stmt {
 	add("case:lowerdml", "insert", "insert or replace into t1 (id, a, b) values (1, 2, 'r')", false, uses(Insert, "insert.target", "t1"))
 
 	for i := range out {
-		for _, u := range out[i].Uses {
-			_ = u
+		if strings.Contains(strings.ToLower(out[i].SQL), "order by") {
+			out[i].Ordered = true
 		}
 
 		if strings.HasPrefix(out[i].Key, "lex:lit") && strings.HasSuffix(out[i].Key, ":escapestr") {
